@@ -76,7 +76,7 @@ def main():
     for pid in sorted(T):
         lvl, tech, ref, text, note = T[pid]
         if pid in ILP32:
-            tech += "; the same oracle on non-default configurations of the sources (NDEBUG + forced C32, byte-order-neutral paths + no explicit_bzero, strict C99 + unsigned char) and a line-by-line differential of ILP32 (-m32, freestanding, guard pages) builds against the model"
+            tech += "; the same oracle on non-default configurations of the sources (NDEBUG + forced C32, byte-order-neutral paths + no explicit_bzero, strict C99 + unsigned char), a line-by-line differential of ILP32 (-m32, freestanding, guard pages) builds against the model, buffers mapped in four address classes and slid across page / 4 GiB boundaries, and replay of a model-mined corpus of inputs with rare (about 2^-32) internal values"
             text += " Thorough tier: single calls with lengths/counts of 2^31..2^32 and beyond (see DESIGN.md section 11)."
         if pid in props.CHECKS:
             assert props.CHECKS[pid][0] == lvl, pid
